@@ -374,7 +374,7 @@ type etPlan struct {
 
 type etPart struct {
 	nOps    int
-	shapes  string // all | full+spines
+	shapes  string // of n = 3: all | full+spines | full | spines
 	ops     []string
 	rootOps []string
 	kinds   []etKind
@@ -387,10 +387,12 @@ func etPlans(thorough bool) []etPlan {
 	rep4 := []etKind{kLit, kLoc, kIt, kTmp} // … and the narrow local
 	if !thorough {
 		return []etPlan{
-			{ctx: "meth", perProg: 3000, parts: []etPart{
+			{ctx: "meth", perProg: 2200, parts: []etPart{
 				{nOps: 1, shapes: "all", ops: arithOps, kinds: methAll},
 				{nOps: 2, shapes: "all", ops: arithOps, kinds: methAll},
-				{nOps: 3, shapes: "full+spines", ops: arithOps, kinds: rep3},
+				{nOps: 3, shapes: "full", ops: arithOps, kinds: rep3},
+				{nOps: 3, shapes: "spines", ops: arithOps, kinds: []etKind{kLit, kTmp}},
+				{nOps: 3, shapes: "spines", ops: arithOps, kinds: []etKind{kLoc, kTmp}},
 			}},
 			// the top level of a program is one Go function: small programs
 			{ctx: "top", perProg: 240, parts: []etPart{
@@ -431,7 +433,9 @@ func etBuild(thorough bool) []*etProgram {
 		for _, pt := range pl.parts {
 			var shapes []*etNode
 			for _, sh := range etShapes(pt.nOps) {
-				if pt.shapes == "all" || pt.nOps < 3 || etIsLeftSpine(sh) || etIsRightSpine(sh) || (sh.l.op != "" && sh.r.op != "") {
+				spine := etIsLeftSpine(sh) || etIsRightSpine(sh)
+				full := sh.l.op != "" && sh.r.op != ""
+				if pt.shapes == "all" || pt.nOps < 3 || (spine && pt.shapes != "full") || (full && pt.shapes != "spines") {
 					shapes = append(shapes, sh)
 				}
 			}
@@ -592,21 +596,30 @@ func etParse(out string, n int) (vals map[int]string, ok bool) {
 	return vals, true
 }
 
-// feature: a description of one inner node of a tree at one of four granularities.
+// feature: a description of one inner node of a tree at one of several granularities: (0) the node — operator and
+// operand classes; (1) the node and what is evaluated around it — whether an operand that needs a temporary is
+// evaluated later / was evaluated earlier in the enclosing expression — or the node, its position and the class of
+// its sibling; (2) node, position and parent operator; (3) node, position, parent operator and sibling class.
 type etFeature struct {
-	level int // 0: the node; 1: node + position + sibling class; 2: node + position + parent operator; 3: all
+	level int
 	text  string
 }
 
 func etFeatures(t *etNode) []etFeature {
 	var fs []etFeature
-	var walk func(n, parent *etNode, pos string)
-	walk = func(n, parent *etNode, pos string) {
+	var walk func(n, parent *etNode, pos string, earlier, later bool)
+	walk = func(n, parent *etNode, pos string, earlier, later bool) {
 		if n.op == "" {
 			return
 		}
 		node := fmt.Sprintf("op=%s left=%s right=%s", n.op, n.l.class(), n.r.class())
 		fs = append(fs, etFeature{0, node})
+		if later {
+			fs = append(fs, etFeature{1, node + " followed-by=operand-needing-a-temp"})
+		}
+		if earlier {
+			fs = append(fs, etFeature{1, node + " preceded-by=operand-needing-a-temp"})
+		}
 		if parent != nil {
 			sib := parent.r
 			if pos == "right" {
@@ -617,10 +630,10 @@ func etFeatures(t *etNode) []etFeature {
 				etFeature{2, fmt.Sprintf("%s position=%s-operand parent=%s", node, pos, parent.op)},
 				etFeature{3, fmt.Sprintf("%s position=%s-operand parent=%s sibling=%s", node, pos, parent.op, sib.class())})
 		}
-		walk(n.l, n, "left")
-		walk(n.r, n, "right")
+		walk(n.l, n, "left", earlier, later || n.r.hasTemp())
+		walk(n.r, n, "right", earlier || n.l.hasTemp(), later)
 	}
-	walk(t, nil, "")
+	walk(t, nil, "", false, false)
 	return fs
 }
 
@@ -941,6 +954,15 @@ func etFinish(a *engine.Agg) {
 		m := map[string]bool{}
 		for _, kv := range strings.Fields(strings.TrimPrefix(sig, etSigPrefix)) {
 			m[kv] = true
+		}
+		// what a pattern implies: a sibling that needs a temporary is evaluated later (earlier) than a left (right) operand
+		if m["sibling="+etLeafClass(kTmp)] || m["sibling=inline-expr-over-temp"] {
+			if m["position=left-operand"] {
+				m["followed-by=operand-needing-a-temp"] = true
+			}
+			if m["position=right-operand"] {
+				m["preceded-by=operand-needing-a-temp"] = true
+			}
 		}
 		return m
 	}
